@@ -12,22 +12,37 @@ use std::rc::Rc;
 
 pub struct Fault;
 
+/// The fault: index of the failing I/O call and the `io::ErrorKind` it fails with.  The kind matters: code that
+/// inspects `e.kind()` (the probe seek of `get_directory_counts` takes `InvalidInput` for "file too short") or that
+/// gives a kind a meaning (`UnexpectedEof`) must not take a device failure of that kind for something else.
+pub type Flt = Option<(u64, std::io::ErrorKind)>;
+
+/// names as printed by `util::io_kind` / `Out.className` (`injected` = `ConnectionAborted`)
+pub const KINDS: [(&str, std::io::ErrorKind); 7] = [
+    ("injected", std::io::ErrorKind::ConnectionAborted),
+    ("invalidinput", std::io::ErrorKind::InvalidInput),
+    ("eof", std::io::ErrorKind::UnexpectedEof),
+    ("invaliddata", std::io::ErrorKind::InvalidData),
+    ("other", std::io::ErrorKind::Other),
+    ("writezero", std::io::ErrorKind::WriteZero),
+    ("brokenpipe", std::io::ErrorKind::BrokenPipe),
+];
+
 pub struct FaultIo {
     pub inner: Cursor<Vec<u8>>,
     pub calls: Rc<Cell<u64>>,
-    pub fail_at: Option<u64>,
+    pub fail_at: Flt,
 }
 impl FaultIo {
-    pub fn new(bytes: Vec<u8>, fail_at: Option<u64>) -> FaultIo {
+    pub fn new(bytes: Vec<u8>, fail_at: Flt) -> FaultIo {
         FaultIo { inner: Cursor::new(bytes), calls: Rc::new(Cell::new(0)), fail_at }
     }
     fn tick(&mut self) -> std::io::Result<()> {
         let c = self.calls.get();
         self.calls.set(c + 1);
-        if self.fail_at == Some(c) {
-            Err(std::io::Error::new(std::io::ErrorKind::ConnectionAborted, "injected fault"))
-        } else {
-            Ok(())
+        match self.fail_at {
+            Some((k, kind)) if k == c => Err(std::io::Error::new(kind, "injected fault")),
+            _ => Ok(()),
         }
     }
 }
@@ -53,7 +68,7 @@ impl SinkInfo for FaultIo {
 /// compressed entries (`pw` for the encrypted ones).  Oracle-only: the model does not describe per-call
 /// behaviour of the external cipher / codec layers, the property does not need it either (no panic; all calls
 /// Ok implies the failure-free result).
-fn run_enc(bytes: Vec<u8>, pw: &[u8], bufsz: usize, k: Option<u64>) -> (String, u64, bool) {
+fn run_enc(bytes: Vec<u8>, pw: &[u8], bufsz: usize, k: Flt) -> (String, u64, bool) {
     let io = FaultIo::new(bytes, k);
     let calls = io.calls.clone();
     let pw = pw.to_vec();
@@ -135,12 +150,14 @@ fn enc_archive(r: &mut Rng) -> (Vec<u8>, Vec<u8>) {
     }
 }
 
-fn k_of(a: &std::collections::BTreeMap<String, String>) -> Option<u64> {
-    match a.get("k").map(|s| s.as_str()) { None | Some("none") => None, Some(v) => v.parse().ok() }
+fn k_of(a: &std::collections::BTreeMap<String, String>) -> Flt {
+    let k: u64 = match a.get("k").map(|s| s.as_str()) { None | Some("none") => return None, Some(v) => v.parse().ok()? };
+    let kind = match a.get("kind") { None => std::io::ErrorKind::ConnectionAborted, Some(n) => KINDS.iter().find(|x| x.0 == n.as_str())?.1 };
+    Some((k, kind))
 }
 
 /// open + read every entry sequentially with one large buffer
-fn run_read(bytes: Vec<u8>, k: Option<u64>) -> (String, u64) {
+fn run_read(bytes: Vec<u8>, k: Flt) -> (String, u64) {
     let io = FaultIo::new(bytes, k);
     let calls = io.calls.clone();
     let r = catch(std::panic::AssertUnwindSafe(move || {
@@ -171,7 +188,7 @@ fn run_read(bytes: Vec<u8>, k: Option<u64>) -> (String, u64) {
     (r.unwrap_or_else(|_| "panic".into()), calls.get())
 }
 
-fn run_write(calls: &[String], srcs: &[Vec<u8>], k: Option<u64>) -> (String, u64, Option<Vec<u8>>, bool) {
+fn run_write(calls: &[String], srcs: &[Vec<u8>], k: Flt) -> (String, u64, Option<Vec<u8>>, bool) {
     let first: Vec<&str> = calls[0].split(',').collect();
     let base = if first[0] == "ap" { unhex(first[1]).unwrap_or_default() } else { vec![] };
     let io = FaultIo::new(base, k);
@@ -193,7 +210,8 @@ fn stored_opts(r: &mut Rng) -> String {
 }
 
 /// One item of a plain (stored) call sequence.  Families: 0..=3 ordinary entry, 4 directory, 5 symlink, 6 comment,
-/// 7 extra-data mode (local, optionally central-only part), 8 aligned entry.
+/// 7 extra-data mode (local, optionally central-only part) ended explicitly, 8 aligned entry, 9 extra-data mode
+/// ended implicitly.
 fn family_calls(r: &mut Rng, fam: u64, calls: &mut Vec<String>) {
     match fam {
         0..=3 => {
@@ -212,6 +230,14 @@ fn family_calls(r: &mut Rng, fam: u64, calls: &mut Vec<String>) {
             calls.push("ex".into());
             calls.push(format!("w,{}", hex(b"data")));
         }
+        9 => {
+            // extra-data mode ended IMPLICITLY - by the next entry, by finish or by drop (`finish_file` calls
+            // `end_extra_data` itself): non-empty, valid extra data, so the implicit end writes the extra field
+            // and back-patches the header through the faulting sink
+            calls.push(format!("sx,{},{}", hex(b"xi"), stored_opts(r)));
+            calls.push(format!("w,{}", hex(&[0xfe, 0xca, 3, 0, 7, 8, 9])));
+            if r.chance(1, 3) { calls.push("el".into()); calls.push(format!("w,{}", hex(&[0xef, 0xbe, 2, 0, 4, 5]))); }
+        }
         _ => {
             // `start_file_aligned`: the padding record is written and the header back-patched through the sink
             let al = *r.pick(&[0u32, 1, 2, 4, 16, 64, 512, 3, 7, 4096]);
@@ -221,7 +247,7 @@ fn family_calls(r: &mut Rng, fam: u64, calls: &mut Vec<String>) {
     }
 }
 
-const NFAM: u64 = 9;
+const NFAM: u64 = 10;
 
 /// A stored call sequence of 1..4 items ending in finish / drop / finish twice; `force` puts one item of that
 /// family at a random place (so that every family is emitted in every run, whatever the seed).
@@ -285,6 +311,21 @@ fn rc_scenario(r: &mut Rng, nsrc_entries: usize) -> Vec<String> {
     calls
 }
 
+/// The fault lines of one scenario: every I/O call index `k` of the fault-free run, the kind of the injected error
+/// rotating with `k` (offset by the scenario index); `probe`: scenarios that open an archive (`ZipArchive::new`,
+/// `new_append`) get a second line with kind `InvalidInput` for every `k`, the one kind the crate's code inspects.
+fn push_faults(g: &mut GenOut, label: &str, prefix: &str, i: u64, n: u64, probe: bool) {
+    for k in 0..n {
+        let rot = KINDS[((i + k) % KINDS.len() as u64) as usize].0;
+        let mut kinds = vec![rot];
+        if probe && rot != "invalidinput" { kinds.push("invalidinput"); }
+        for kind in kinds {
+            g.push(label, format!("{prefix} k={k} kind={kind}"));
+            *g.dist.entry(format!("kind.{kind}")).or_insert(0) += 1;
+        }
+    }
+}
+
 /// `dist` counters per scenario family: op lines whose call list contains the family.
 fn count_families(g: &mut GenOut, calls: &[String], lines: u64) {
     let mut seen: Vec<&str> = vec![];
@@ -297,6 +338,16 @@ fn count_families(g: &mut GenOut, calls: &[String], lines: u64) {
             _ => continue,
         };
         if !seen.contains(&fam) { seen.push(fam); }
+    }
+    // extra-data mode left open: an `sx` whose next start / fin / drop comes before any `ex`
+    let mut open = false;
+    for c in calls {
+        match c.split(',').next().unwrap_or("") {
+            "sx" => { if open && !seen.contains(&"extra-implicit-end") { seen.push("extra-implicit-end"); } open = true; }
+            "ex" => open = false,
+            "sf" | "sa" | "dir" | "sym" | "rc" | "fin" | "drop" => { if open && !seen.contains(&"extra-implicit-end") { seen.push("extra-implicit-end"); } open = false; }
+            _ => {}
+        }
     }
     for fam in seen { *g.dist.entry(format!("fam.{fam}")).or_insert(0) += lines; }
 }
@@ -320,7 +371,7 @@ fn codec_scenario(r: &mut Rng) -> Vec<String> {
 
 /// Raw copy with the fault on the SOURCE archive's reader (a short-reading one): `raw_copy_file` must report a
 /// source read error, never return Ok for a truncated copy.  Returns (outcome tokens, source I/O calls, result).
-fn run_rawcopy(src: Vec<u8>, chunk: usize, k: Option<u64>) -> (String, u64, Option<String>) {
+fn run_rawcopy(src: Vec<u8>, chunk: usize, k: Flt) -> (String, u64, Option<String>) {
     struct Short { inner: FaultIo, chunk: usize }
     impl Read for Short { fn read(&mut self, buf: &mut [u8]) -> std::io::Result<usize> { let n = buf.len().min(self.chunk.max(1)); self.inner.read(&mut buf[..n]) } }
     impl Seek for Short { fn seek(&mut self, p: SeekFrom) -> std::io::Result<u64> { self.inner.seek(p) } }
@@ -355,13 +406,16 @@ fn run_rawcopy(src: Vec<u8>, chunk: usize, k: Option<u64>) -> (String, u64, Opti
 
 /// The streaming reader under faults: entries are read partly (`consume` bytes each) and dropped, so the drain on
 /// drop runs into the fault as well; neither a read nor the drop may panic.
-fn run_streaming(bytes: Vec<u8>, consume: usize, k: Option<u64>) -> (String, u64, bool) {
+fn run_streaming(bytes: Vec<u8>, consume: usize, k: Flt) -> (String, u64, bool, bool) {
     let io = FaultIo::new(bytes, k);
     let calls = io.calls.clone();
+    let calls2 = io.calls.clone();
     let r = catch(std::panic::AssertUnwindSafe(move || {
         let mut io = io;
         let mut s = String::new();
         let mut any_err = false;
+        // did the fault fire inside a drain (the reads `Drop for ZipFile` issues)?
+        let mut in_drain = false;
         for i in 0..64 {
             match zip::read::read_zipfile_from_stream(&mut io) {
                 Ok(None) => { s += " end"; break; }
@@ -373,14 +427,41 @@ fn run_streaming(bytes: Vec<u8>, consume: usize, k: Option<u64>) -> (String, u64
                     while got < consume {
                         match f.read(&mut buf[got..]) { Ok(0) => break, Ok(c) => got += c, Err(e) => { any_err = true; res = super::read::cls_io(&e); break; } }
                     }
-                    s += &format!(" {i}={res}:{}:{}", crc32fast::hash(&buf[..got]), got);
+                    s += &format!(" {i}={}:{res}:{}:{}", hex(f.name().as_bytes()), crc32fast::hash(&buf[..got]), got);
                     // `f` is dropped here: the rest of the entry is drained from the faulty stream
+                    let before = calls2.get();
+                    drop(f);
+                    if let Some((kk, _)) = k { if before <= kk && kk < calls2.get() { in_drain = true; } }
                 }
             }
         }
-        (s, any_err)
+        (s, any_err, in_drain)
     }));
-    match r { Ok((s, e)) => (s, calls.get(), e), Err(_) => ("panic".into(), calls.get(), true) }
+    match r { Ok((s, e, d)) => (s, calls.get(), e, d), Err(_) => ("panic".into(), calls.get(), true, false) }
+}
+
+/// A stream whose first entry hides, exactly zero, one or two 64 KiB drain reads behind the bytes the consumer takes,
+/// something that parses as the continuation of a ZIP stream: a nested stored archive (its first local header)
+/// or a central-directory signature.  `Drop for ZipFile` drains in 64 KiB reads and ends silently at an error,
+/// so a fault in the second / third drain read leaves the stream positioned right there.
+fn nested_stream_archive(r: &mut Rng, consume: usize) -> Vec<u8> {
+    let stored = zip::write::FileOptions::default().compression_method(zip::CompressionMethod::Stored);
+    let inner = {
+        let mut w = zip::ZipWriter::new(Cursor::new(vec![]));
+        let _ = w.start_file("evil", stored);
+        let _ = w.write_all(b"evil data");
+        w.finish().map(|c| c.into_inner()).unwrap_or_default()
+    };
+    let mut content = r.bytes(consume);
+    // 0: the FIRST drain read is the one that matters (the Lean witness `nestedStream`), 1 / 2: the second / third
+    content.extend(std::iter::repeat(0x2eu8).take(65536 * r.below(3) as usize));
+    if r.chance(2, 3) { content.extend_from_slice(&inner); } else { content.extend_from_slice(b"PK\x01\x02 not a central header"); }
+    let mut w = zip::ZipWriter::new(Cursor::new(vec![]));
+    let _ = w.start_file("a", stored);
+    let _ = w.write_all(&content);
+    let _ = w.start_file("b", stored);
+    let _ = w.write_all(b"seventeen bytes!!");
+    w.finish().map(|c| c.into_inner()).unwrap_or_default()
 }
 
 fn listing(bytes: &[u8]) -> Option<String> {
@@ -392,7 +473,7 @@ fn listing(bytes: &[u8]) -> Option<String> {
         f.read_to_end(&mut b).ok()?;
         #[allow(deprecated)]
         let m = f.compression().to_u16();
-        s += &format!(" | {} {} {} {:?}", hex(f.name().as_bytes()), m, crc32fast::hash(&b), f.unix_mode());
+        s += &format!(" | {} {} {} {:?} x={}", hex(f.name().as_bytes()), m, crc32fast::hash(&b), f.unix_mode(), hex(f.extra_data()));
     }
     Some(s)
 }
@@ -402,7 +483,7 @@ impl Stream for Fault {
 
     fn gen(&self, seed: u64, tier: &str) -> GenOut {
         let mut g = GenOut::default();
-        g.rule = "scenarios: (read) open + read every entry of small stored archives from the independent builder (prefix, ZIP64 end records, descriptors, comments) and the writer; (write) stored call sequences incl. directories, symlinks, extra data (local and central-only), comments, aligned entries, raw copies into the faulting sink, finish/drop, second finish, and append onto bases (writer-made and from the independent builder) - one `fam.<family>` counter each; compressing / ZipCrypto entries with the codec tables; for each scenario the fault-free run and then a hard error injected at EVERY I/O call index k (exhaustive per scenario). non-trivial = a fault run (k given)".into();
+        g.rule = "scenarios: (read) open + read every entry of small stored archives from the independent builder (prefix, ZIP64 end records, descriptors, comments) and the writer; (write) stored call sequences incl. directories, symlinks, extra data (local and central-only), comments, aligned entries, raw copies into the faulting sink, finish/drop, second finish, and append onto bases (writer-made and from the independent builder) - one `fam.<family>` counter each; compressing / ZipCrypto entries with the codec tables; for each scenario the fault-free run and then a hard error injected at EVERY I/O call index k (exhaustive per scenario), its io::ErrorKind rotating over 7 kinds (`kind.*` counters; scenarios that open an archive: every k also with InvalidInput, the kind get_directory_counts inspects). non-trivial = a fault run (k given)".into();
         let nscen = if tier == "thorough" { 2000 } else { 80 };
         // a writer-made archive: a plain call sequence, finished
         let finished = |r: &mut Rng| -> Vec<u8> {
@@ -419,13 +500,14 @@ impl Stream for Fault {
             crate::mkzip::build(&l).bytes
         };
         // one write scenario: the fault-free line, then one line per I/O call index
-        let push_write = |g: &mut GenOut, kind: &str, op: &str, calls: &[String], srcs: &[Vec<u8>], tables: &str| {
+        let push_write = |g: &mut GenOut, i: u64, kind: &str, op: &str, calls: &[String], srcs: &[Vec<u8>], tables: &str| {
             let (_, n, _, _) = run_write(calls, srcs, None);
             let mut tail = tables.to_string();
             for (j, s) in srcs.iter().enumerate() { tail += &format!(" src{j}={}", hex(s)); }
             g.push(&format!("{kind}.free"), format!("{op} calls={}{tail} k=none", calls.join(";")));
-            for k in 0..n { g.push(&format!("{kind}.k"), format!("{op} calls={}{tail} k={k}", calls.join(";"))); }
-            count_families(g, calls, n + 1);
+            let before = g.ops.len();
+            push_faults(g, &format!("{kind}.k"), &format!("{op} calls={}{tail}", calls.join(";")), i, n, calls[0].starts_with("ap,"));
+            count_families(g, calls, (g.ops.len() - before) as u64 + 1);
         };
         for i in 0..nscen {
             let mut r = super::rng_for(seed, "fault", i);
@@ -434,11 +516,15 @@ impl Stream for Fault {
             match i % 16 {
                 1 | 9 => {
                     // streaming reader, partial consumption, drain on drop (oracle only)
-                    let bytes = finished(&mut r);
-                    let consume = *r.pick(&[0usize, 1, 7, 1000]);
-                    let (_, n, _) = run_streaming(bytes.clone(), consume, None);
+                    // one scenario per 80 (and none in the further-seed tier, the lines are long): a nested archive /
+                    // central signature behind 64 KiB drain reads (known finding K-J)
+                    let nested = i % 80 == 9 && tier != "quickx";
+                    let consume = if nested { *r.pick(&[0usize, 4, 100]) } else { *r.pick(&[0usize, 1, 7, 1000]) };
+                    let bytes = if nested { nested_stream_archive(&mut r, consume) } else { finished(&mut r) };
+                    if nested { *g.dist.entry("stream.nested-behind-drain".into()).or_insert(0) += 1; }
+                    let (_, n, _, _) = run_streaming(bytes.clone(), consume, None);
                     g.push("stream.free", format!("fault.stream bytes={} consume={consume} k=none", hex(&bytes)));
-                    for k in 0..n { g.push("stream.k", format!("fault.stream bytes={} consume={consume} k={k}", hex(&bytes))); }
+                    push_faults(&mut g, "stream.k", &format!("fault.stream bytes={} consume={consume}", hex(&bytes)), i, n, false);
                 }
                 3 | 11 => {
                     // encrypted / compressed read scenario, small caller buffers, retry after an error (oracle only)
@@ -447,7 +533,7 @@ impl Stream for Fault {
                     let (_, n, _) = run_enc(bytes.clone(), &pw, bufsz, None);
                     let pwh = if pw.is_empty() { "-".to_string() } else { hex(&pw) };
                     g.push("enc.free", format!("fault.enc bytes={} pw={pwh} buf={bufsz} k=none", hex(&bytes)));
-                    for k in 0..n { g.push("enc.k", format!("fault.enc bytes={} pw={pwh} buf={bufsz} k={k}", hex(&bytes))); }
+                    push_faults(&mut g, "enc.k", &format!("fault.enc bytes={} pw={pwh} buf={bufsz}", hex(&bytes)), i, n, false);
                 }
                 5 => {
                     // codec scenarios carry the codec tables (as `make_line` of the write stream builds them): the model
@@ -456,7 +542,7 @@ impl Stream for Fault {
                     let calls = codec_scenario(&mut r);
                     let ro = super::write::run_calls(&calls, &[]);
                     let tables = format!(" comp={} zc={}", if ro.comp.is_empty() { "-".into() } else { ro.comp.join(";") }, if ro.zc.is_empty() { "-".into() } else { ro.zc.join(";") });
-                    push_write(&mut g, "writec", "fault.write", &calls, &[], &tables);
+                    push_write(&mut g, i, "writec", "fault.write", &calls, &[], &tables);
                 }
                 7 => {
                     // raw copy with the fault on the source reader (oracle only)
@@ -473,7 +559,7 @@ impl Stream for Fault {
                     let chunk = *r.pick(&[1usize, 7, 64, 100000]);
                     let (_, n, _) = run_rawcopy(src.clone(), chunk, None);
                     g.push("rawcopy.free", format!("fault.rawcopy src={} chunk={chunk} k=none", hex(&src)));
-                    for k in 0..n { g.push("rawcopy.k", format!("fault.rawcopy src={} chunk={chunk} k={k}", hex(&src))); }
+                    push_faults(&mut g, "rawcopy.k", &format!("fault.rawcopy src={} chunk={chunk}", hex(&src)), i, n, false);
                 }
                 13 => {
                     // raw copies INTO the faulting sink: compared with the model when the source reader delivers each
@@ -482,8 +568,8 @@ impl Stream for Fault {
                     let src = rc_source(&mut r, whole);
                     let nent = zip::ZipArchive::new(Cursor::new(src.clone())).map(|a| a.len()).unwrap_or(0);
                     let calls = rc_scenario(&mut r, nent);
-                    if whole { push_write(&mut g, "write-rc", "fault.write", &calls, &[src], ""); }
-                    else { push_write(&mut g, "writeo-rc", "fault.writeo", &calls, &[src], ""); }
+                    if whole { push_write(&mut g, i, "write-rc", "fault.write", &calls, &[src], ""); }
+                    else { push_write(&mut g, i, "writeo-rc", "fault.writeo", &calls, &[src], ""); }
                 }
                 6 | 14 | 15 => {
                     // plain (stored) call sequences: 6 = fresh sink, 14 = appended onto a base (writer-made or from the
@@ -492,16 +578,16 @@ impl Stream for Fault {
                     // emitted in every run of at least 80 scenarios
                     let with_base = i % 16 == 14 || (i % 16 == 15 && r.chance(1, 4));
                     let base = if with_base { Some(if r.chance(2, 3) { finished(&mut r) } else { small_builder(&mut r) }) } else { None };
-                    let force = if i % 16 == 15 { None } else { Some(4 + (i / 16) % (NFAM - 4)) };
+                    let force = if i % 16 == 15 { None } else { Some(4 + (i / 16 + if i % 16 == 14 { 3 } else { 0 }) % (NFAM - 4)) };
                     let calls = write_scenario(&mut r, base.as_ref(), force);
-                    push_write(&mut g, "write", "fault.write", &calls, &[], "");
+                    push_write(&mut g, i, "write", "fault.write", &calls, &[], "");
                 }
                 _ => {
                     // read scenario
                     let bytes = if r.chance(1, 2) { small_builder(&mut r) } else { finished(&mut r) };
                     let (_, n) = run_read(bytes.clone(), None);
                     g.push("read.free", format!("fault.read bytes={} k=none", hex(&bytes)));
-                    for k in 0..n { g.push("read.k", format!("fault.read bytes={} k={k}", hex(&bytes))); }
+                    push_faults(&mut g, "read.k", &format!("fault.read bytes={}", hex(&bytes)), i, n, true);
                 }
             }
         }
@@ -540,11 +626,17 @@ impl Stream for Fault {
         if op == "fault.stream" {
             let bytes = get_hex(&a, "bytes").unwrap_or_default();
             let consume = get_u64(&a, "consume").unwrap_or(0) as usize;
-            let (res, _, any_err) = run_streaming(bytes.clone(), consume, k);
+            let (res, _, any_err, in_drain) = run_streaming(bytes.clone(), consume, k);
             if res.contains("panic") { f.push(OracleFailure { what: format!("panic under an injected I/O fault in the streaming reader (read or drain on drop): k={k:?} consume={consume}") }); return f; }
             if k.is_some() && !any_err {
-                let (free, _, _) = run_streaming(bytes, consume, None);
-                if res != free { f.push(OracleFailure { what: format!("streaming reader: every call succeeded under the fault but the result differs from the fault-free run: `{res}` vs `{free}`") }); }
+                let (free, _, _, _) = run_streaming(bytes, consume, None);
+                if res != free {
+                    // the one known way: the fault fired in a read issued by `Drop for ZipFile` (which cannot report it
+                    // and ends the drain), and what follows in the stream parses as entries (known finding K-J);
+                    // the same symptom with the fault anywhere else is a violation
+                    if in_drain { f.push(OracleFailure { what: format!("K-J stream-drain-fault-swallowed: a read error while a dropped streamed entry is drained ends the drain silently; the next read_zipfile_from_stream parses the undrained rest of the entry: every call Ok, entries `{res}` instead of `{free}`") }); }
+                    else { f.push(OracleFailure { what: format!("streaming reader: every call succeeded under the fault but the result differs from the fault-free run: `{res}` vs `{free}`") }); }
+                }
             }
             return f;
         }
